@@ -228,6 +228,14 @@ def object_schema(draw, cfg, refs, depth):
         s["additionalProperties"] = draw(st.one_of(st.booleans(), sub_schema(cfg, refs, depth)))
     elif extra == 1:
         s["patternProperties"] = {draw(st.sampled_from(PATTERNS)): draw(sub_schema(cfg, refs, depth))}
+        if draw(st.booleans()):
+            # two or three patterns whose schemas are DIFFERENT objects under one title (the order in which they
+            # are parsed decides which becomes Setting, Setting_1, Setting_2)
+            title = draw(st.sampled_from(["Setting", "Widget", "my title"]))
+            for i, pat in enumerate(draw(st.lists(st.sampled_from(["^a", "b$", "x", "^s", "^[0-9]+$", "-"]), min_size=2,
+                                                  max_size=3, unique=True))):
+                s["patternProperties"][pat] = {"type": "object", "title": title,
+                                               "properties": {"f%d" % i: {"type": "integer"}}}
     elif extra == 2:
         s["dependencies"] = {draw(st.sampled_from(["a", "b"])): draw(sub_schema(cfg, refs, depth))}
     elif extra == 3:
